@@ -722,21 +722,32 @@ def r11_declaration_order(repo):
 def r5b_take_over(repo):
     """a parameter that is the bound of an already assigned parameter takes over that assignment whenever it has no
     assignment of its own - whatever bound it has itself (otherwise the later parameter's argument is not below it)"""
+    from ..astutil import enclosing_stmt
     f = repo.fn(CTVA)
     lp, idx, tparam = _main_loop(f)
-    loops = [n for n in iter_own_nodes(lp) if isinstance(n, ast.For) and n is not lp and
-             isinstance(n.iter, ast.Call) and call_name(n.iter) == "items" and
-             any(isinstance(x, ast.Compare) and len(x.ops) == 1 and isinstance(x.ops[0], ast.Eq) and
-                 {src(x.left).rsplit(".", 1)[-1], src(x.comparators[0])} == {"bound", tparam} and
-                 src(x.left).endswith(".bound") for x in ast.walk(n))]
-    if len(loops) != 1:
-        raise AnalysisError("expected one take-over loop `for k, v in type_var_map.items(): if k.bound == %s`" % tparam,
+    sites = []
+    for x in ast.walk(lp):
+        if isinstance(x, ast.Compare) and len(x.ops) == 1 and isinstance(x.ops[0], ast.Eq) and \
+                src(x.left).endswith(".bound") and src(x.comparators[0]) == tparam and "." not in src(x.left)[:-6]:
+            # the search over the assignments made so far: a loop or a comprehension over <map>.items()
+            st = enclosing_stmt(x)
+            holder = st
+            for a in ancestors(x):
+                if isinstance(a, ast.For) and a is not lp and isinstance(a.iter, ast.Call) and call_name(a.iter) == "items":
+                    holder = a
+                    break
+                if a is lp:
+                    break
+            sites.append(holder)
+    sites = list({id(h): h for h in sites}.values())
+    if len(sites) != 1:
+        raise AnalysisError("expected one take-over search `<k>.bound == %s` over the assignments, found %d" % (tparam, len(sites)),
                             rule="C08-R5", anchor=f.qualname)
-    gs = [(src(t), p) for t, p in flat_guards(loops[0], stop=lp)]
+    gs = [(src(t), p) for t, p in flat_guards(sites[0], stop=lp)]
     extra = [("" if p else "not ") + t for t, p in gs if p or not re.match(r"^\w+$", t)]
-    return [Ob("C08-R5", "take-over-of-a-bounded-parameter's-assignment:whenever-not-pre-assigned", _w(f, loops[0]),
+    return [Ob("C08-R5", "take-over-of-a-bounded-parameter's-assignment:whenever-not-pre-assigned", _w(f, sites[0]),
                not extra and len(gs) <= 1,
-               "the take-over loop runs under %s; expected only `not <own pre-assignment>`"
+               "the take-over search runs under %s; expected only `not <own pre-assignment>`"
                % [("" if p else "not ") + t for t, p in gs])]
 
 
